@@ -223,6 +223,22 @@ func c09Probe(r *simcore.Run, e *storeEnv, dst, what string, n uint64, exports m
 		return // refusing to open is a detection
 	}
 	defer st.Close()
+	// a second index whose keys are derived from the stored VALUE (as the SQL engine's indexes are):
+	// it does not exist in the copy, so it is built from the (altered) log
+	mapped := r.Pct(50)
+	if mapped {
+		var ierr error
+		pv, stack := r.Catch(func() {
+			ierr = st.InitIndexing(&store.IndexSpec{TargetPrefix: []byte("m:"), TargetEntryMapper: c09Mapper})
+		})
+		if pv != nil {
+			r.Violation("panic", "", "%sInitIndexing panicked: %v\n%s", what, pv, stack)
+		}
+		if ierr != nil {
+			r.Probe("c09-open-refused")
+			return
+		}
+	}
 	served := func(op string, id uint64, format string, args ...interface{}) {
 		r.Violation("corrupted-data-served", "", "%s%s(tx %d): "+format, append([]interface{}{what, op, id}, args...)...)
 	}
@@ -398,6 +414,50 @@ func c09Probe(r *simcore.Run, e *storeEnv, dst, what string, n uint64, exports m
 		r.Probe("c09-indexing-refused")
 		return
 	}
+	if mapped {
+		// every key the value-derived index serves must be the mapping of an entry some committed
+		// transaction really holds, under that transaction's id
+		legit := map[string]map[uint64]bool{}
+		for id := uint64(1); id <= cn; id++ {
+			for _, le := range e.led[id].Entries {
+				if le.NonIndexable {
+					continue
+				}
+				mk, _ := c09Mapper(le.Key, le.Value)
+				if legit[string(mk)] == nil {
+					legit[string(mk)] = map[uint64]bool{}
+				}
+				legit[string(mk)][id] = true
+			}
+		}
+		var snap *store.Snapshot
+		var serr error
+		pv, stack := r.Catch(func() { snap, serr = st.SnapshotMustIncludeTxID(context.Background(), []byte("m:"), cn) })
+		if pv != nil {
+			r.Violation("panic", "", "%ssnapshot of the value-derived index panicked: %v\n%s", what, pv, stack)
+		}
+		if serr == nil {
+			rd, rerr := snap.NewKeyReader(store.KeyReaderSpec{Prefix: []byte("m:")})
+			for rerr == nil {
+				var key []byte
+				var ref store.ValueRef
+				key, ref, rerr = rd.Read(context.Background())
+				if rerr != nil {
+					break
+				}
+				if !legit[string(key)][ref.Tx()] {
+					rd.Close()
+					snap.Close()
+					r.Violation("corrupted-data-served", "", "%sthe index built from the log holds key %q for tx %d: no committed entry of that transaction maps to it (the key was derived from altered value bytes)", what, trunc(key), ref.Tx())
+				}
+				r.Probe("c09-value-derived-index-entry-checked")
+			}
+			if rd != nil {
+				rd.Close()
+			}
+			snap.Close()
+		}
+	}
 	model, keys := e2ModelFromLedger(e, cn)
 	for _, k := range keys {
 		vers := model[k]
@@ -534,4 +594,11 @@ func c09ExportDiffers(got, want []byte, lt *ledTx) string {
 		return "values replaced by digests without the truncated flag"
 	}
 	return ""
+}
+
+// c09Mapper derives an index key from key and value (value-dependent, like the SQL engine's mappers).
+func c09Mapper(key, value []byte) ([]byte, error) {
+	out := append([]byte("m:"), key...)
+	out = append(out, '/')
+	return append(out, value[:min(len(value), 12)]...), nil
 }
